@@ -11,7 +11,7 @@ git checkout -q -- . ; git clean -fdq lang app testsuite 2>/dev/null
 git apply "$src/patch.diff" || { echo "patch does not apply to the worktree"; exit 2; }
 tests=$(cargo test --workspace --no-fail-fast --offline 2>&1 | grep -E "^test result" | awk '{p+=$4; f+=$6} END{print p" passed "f" failed"}')
 bash "$src/demo.sh" "$wt" > /tmp/seed-demo-patched.log 2>&1; with=$?
-bash "$src/demo.sh" /repo > /tmp/seed-demo-clean.log 2>&1; without=$?
+bash "$src/demo.sh" "${SEED_CLEAN:-/repo}" > /tmp/seed-demo-clean.log 2>&1; without=$?
 echo "$id: tests: $tests ; demo with change: exit $with ; demo on /repo (unchanged): exit $without"
 if [ "$with" -ne 0 ] && [ "$without" -eq 0 ] && echo "$tests" | grep -q " 0 failed"; then
   mkdir -p "$dst"; rm -rf "$dst"/*
